@@ -770,6 +770,26 @@ impl<F: Read + Write + Seek> Package<F> {
         if let Some(ref validation_columns) = validation_columns {
             check_catalog_rows(validation_columns, &validation_rows)?;
         }
+        // Likewise, make sure that none of those rows is already present
+        // (e.g. left over in a malformed file, or inserted by hand).
+        let mut catalogs =
+            vec![(COLUMNS_TABLE_NAME, "Table"), (TABLES_TABLE_NAME, "Name")];
+        if validation_columns.is_some() && table_name != VALIDATION_TABLE_NAME
+        {
+            catalogs.push((VALIDATION_TABLE_NAME, "Table"));
+        }
+        for (catalog_name, column_name) in catalogs.into_iter() {
+            let query = Select::table(catalog_name).with(
+                Expr::col(column_name).eq(Expr::string(table_name.as_str())),
+            );
+            if self.select_rows(query)?.len() > 0 {
+                already_exists!(
+                    "Table {:?} already has entries for a table named {:?}",
+                    catalog_name,
+                    table_name
+                );
+            }
+        }
         self.string_pool.check_capacity(
             columns_rows
                 .iter()
